@@ -213,6 +213,65 @@ def isRepresentableQ (B p : Nat) (x : Rat) : Bool :=
     let n := x.num * ((s / x.den : Nat) : Int)
     decide ((FRepr.new B n 0).digits B ≤ p)
 
+/-- C03 (round 6, addendum E1: the `isize` exponents of the operands of add / sub).  An operand exponent of magnitude ≥ 2^14
+    is not turned into a rational (`B^|e|`); the contract is evaluated on REDUCED operands: add / sub depend on the
+    exponents only through their difference (the common offset `t` is put back on the result), and a gap ≥ 2^14 that
+    exceeds `4·(p + digits) + 64` is far beyond the far-apart threshold `digits_ub + 1 + p + 1 < ldigits + gap` of `repr_add_large_small`, where the small operand
+    enters by its sign alone — it is reduced to `4·(p + digits) + 64`, still far apart.  The MODEL result is computed on
+    the real exponents (its far-apart branch shifts nothing); that it equals the reduced run moved by `t` is checked here
+    (`huge-exponent-reduction` otherwise).  Only for `1 ≤ p < 2^20`. -/
+def addHuge (p : Nat) (x y : FRepr) : Bool :=
+  1 ≤ p ∧ p < 2 ^ 20 ∧ (x.exp.natAbs ≥ 2 ^ 14 ∨ y.exp.natAbs ≥ 2 ^ 14)
+
+def addSubHuge (asIs : Bool) (B : Nat) (m : Mode) (p : Nat) (dub : Int → Nat) (x y : FRepr) (rs : Int) : String :=
+  let r := ctxAddSub B m coarseNone dub p x y rs
+  -- a zero operand (exponent 0) stays as it is: only the other operand is moved to exponent 0
+  let hi := if x.signif = 0 then y.exp else if y.signif = 0 then x.exp else max x.exp y.exp
+  let gap := if x.signif = 0 ∨ y.signif = 0 then 0 else (hi - min x.exp y.exp).toNat
+  let g0 : Nat := 4 * (p + x.digits B + y.digits B) + 64
+  let g : Nat := if gap ≥ 2 ^ 14 ∧ gap > g0 then g0 else gap
+  let t : Int := hi - (g : Int)
+  let x' : FRepr := if x.signif = 0 then x else ⟨x.signif, if x.exp = hi then (g : Int) else 0⟩
+  let y' : FRepr := if y.signif = 0 then y else ⟨y.signif, if y.exp = hi then (g : Int) else 0⟩
+  let r' := ctxAddSub B m coarseNone dub p x' y' rs
+  let back : FRepr := if r'.1.signif = 0 then r'.1 else ⟨r'.1.signif, r'.1.exp + t⟩
+  let s := ok (roundedStr r p)
+  if back ≠ r.1 ∨ r'.2 ≠ r.2 then mism s "huge-exponent-reduction"
+  else if asIs then s
+  else
+    let lo := min x'.exp y'.exp
+    let ex := q B x' + (rs : Rat) * q B y'
+    let rep := representable B p (FRepr.new B (x'.signif * ((B ^ (x'.exp - lo).toNat : Nat) : Int)
+        + rs * y'.signif * ((B ^ (y'.exp - lo).toNat : Nat) : Int)) lo)
+    match contractWhy B m p ex rep r' with
+    | none => s
+    | some why => mism s why
+
+/-- C03 (round 6, E1: `isize` exponents of the operands of div): the quotient depends on the exponents only through
+    `lhs.exponent - rhs.exponent`; for an operand exponent of magnitude ≥ 2^14 the contract is evaluated on the two
+    significands at exponent 0 and the MODEL result (computed on the real exponents) must be that result moved by the
+    difference (`huge-exponent-reduction` otherwise).  Both operands non-zero, `1 ≤ p < 2^20`. -/
+def divHuge (p : Nat) (x y : FRepr) : Bool :=
+  x.signif ≠ 0 ∧ y.signif ≠ 0 ∧ 1 ≤ p ∧ p < 2 ^ 20 ∧ (x.exp.natAbs ≥ 2 ^ 14 ∨ y.exp.natAbs ≥ 2 ^ 14)
+
+def divHugeStr (asIs : Bool) (B : Nat) (m : Mode) (p : Nat) (dub dlb : Int → Nat) (x y : FRepr) : String :=
+  let t : Int := x.exp - y.exp
+  let x' : FRepr := ⟨x.signif, 0⟩
+  let y' : FRepr := ⟨y.signif, 0⟩
+  match ctxDiv B m coarseNone dub dlb p x y, ctxDiv B m coarseNone dub dlb p x' y' with
+  | .ok r, .ok r' =>
+    let back : FRepr := if r'.1.signif = 0 then r'.1 else ⟨r'.1.signif, r'.1.exp + t⟩
+    let s := ok (roundedStr r p)
+    if back ≠ r.1 ∨ r'.2 ≠ r.2 then mism s "huge-exponent-reduction"
+    else if asIs then s
+    else
+      let ex := q B x' / q B y'
+      match contractWhy B m p ex (isRepresentableQ B p ex) r' with
+      | none => s
+      | some why => mism s why
+  | .error k, _ => Dashu.Driver.panic k.name
+  | .ok r, .error _ => mism (ok (roundedStr r p)) "huge-exponent-reduction"
+
 def binArith (asIs : Bool) (ctxForm : Bool) (op : String) (a b : FArg) (p : Nat) : Option String := do
   if a.base ≠ b.base ∨ a.mode ≠ b.mode then none
   let B := a.base; let m := a.mode
@@ -224,6 +283,7 @@ def binArith (asIs : Bool) (ctxForm : Bool) (op : String) (a b : FArg) (p : Nat)
   match op with
   | "add" | "sub" =>
     let rs : Int := if op = "add" then 1 else -1
+    if addHuge p x y then pure (addSubHuge asIs B m p dub x y rs) else
     let r := ctxAddSub B m coarseNone dub p x y rs
     let ex := q B x + (rs : Rat) * q B y
     let rep := representable B p (FRepr.new B (x.signif * ((B ^ (x.exp - min x.exp y.exp).toNat : Nat) : Int)
@@ -237,6 +297,7 @@ def binArith (asIs : Bool) (ctxForm : Bool) (op : String) (a b : FArg) (p : Nat)
     let rep := representable B p (FRepr.new B (x.signif * y.signif) (x.exp + y.exp))
     pure (chkContract asIs B m p (q B x * q B y) rep r s false true)
   | "div" =>
+    if divHuge p x y then pure (divHugeStr asIs B m p dub (dlbF32 B) x y) else
     match ctxDiv B m coarseNone dub (dlbF32 B) p x y with
     | .error k => pure (Dashu.Driver.panic k.name)
     | .ok r =>
